@@ -352,6 +352,72 @@ pub fn test_overwrite(c: &OverwriteCase, local: &mut Local) -> Check {
     Ok(())
 }
 
+/// The creating `build()` itself: each of its storage operations fails in turn - without any effect,
+/// or (a write) after only a byte prefix of it reached the store, as a device that runs full does.
+/// The state before that call is "no core", the state after it "an empty core with this key":
+/// repeating the build with the same key pair must succeed either way and give an empty, usable core.
+/// `case` = (public key only?, index of the failing mutating operation, torn prefix or 0).
+pub fn test_create_fault(case: &(bool, u64, u64), local: &mut Local) -> Check {
+    let (public_only, k, cut) = *case;
+    let kp = || {
+        let mut kp = hc::test_keypair();
+        if public_only {
+            kp.secret = None;
+        }
+        kp
+    };
+    let dry = Disk::journaled();
+    match hc::create(&dry, kp()) {
+        Ok(Ok(_)) => {}
+        Ok(Err(e)) => return Err(Failure::new("harness-bug:create-failed", format!("fault-free create failed: {e}"))),
+        Err(p) => return Err(panic_failure("fault-free create", &p)),
+    }
+    let journal = dry.journal();
+    let k = k as usize;
+    if k >= journal.len() {
+        return Ok(());
+    }
+    let mut files = crate::backend::empty_files();
+    for jop in &journal[..k] {
+        crate::backend::apply(&mut files, jop);
+    }
+    let mut what = format!("creating build() whose storage operation {k} ({}) failed without effect", journal[k].brief());
+    if cut > 0 {
+        let crate::backend::JOp::Write { data, .. } = &journal[k] else { return Ok(()) };
+        if cut as usize >= data.len() {
+            return Ok(());
+        }
+        crate::backend::apply_torn(&mut files, &journal[k], cut as usize);
+        what = format!("creating build() whose storage operation {k} ({}) failed after {cut} of {} bytes", journal[k].brief(), data.len());
+        local.class("create_faults:write_failed_after_a_prefix");
+    } else {
+        local.class("create_faults:operation_failed_without_effect");
+    }
+    local.nontrivial(case);
+    let disk = Disk::from_files(files);
+    let core = match hc::create(&disk, kp()) {
+        Ok(Ok(c)) => c,
+        Ok(Err(e)) => return Err(Failure::new(format!("rebuild-after-failed-create-error:{}", err_kind(&e)), format!("{what}: building again on that storage with the same key pair failed: {e}"))),
+        Err(p) => return Err(panic_failure(&format!("{what}: building again"), &p)),
+    };
+    let mut model = ListModel::new();
+    model.writeable = !public_only;
+    let mut core = core;
+    let obs = hc::observe(&mut core, 3, false).map_err(|p| panic_failure(&format!("{what}: observing the core built again"), &p))?;
+    if let Some(d) = obs_vs_model(&obs, &model, true) {
+        return Err(Failure::new("after-failed-create-not-empty", format!("{what}: the core built again is not an empty core: {d}")));
+    }
+    if core.key_pair().public.to_bytes() != hc::test_keypair().public.to_bytes() {
+        return Err(Failure::new("after-failed-create-key-differs", format!("{what}: the core built again has another public key")));
+    }
+    let mut s2 = WSim::attach(&disk, core, model, ObsPolicy::Windowed);
+    let suffix = if public_only { vec![Op::Reopen, Op::Info] } else { writer_suffix() };
+    for sop in suffix {
+        s2.apply(&sop).map_err(|f| Failure::new(format!("after-failed-create:{}", f.kind), format!("{what}: usability suffix: {}", f.detail)))?;
+    }
+    Ok(())
+}
+
 pub fn test_history(ops: &[Op], local: &mut Local) -> Check {
     let dry = run_once(ops, None, local)?;
     local.class("histories");
@@ -387,6 +453,8 @@ pub fn run(ctx: &Ctx) {
          those near call boundaries and every 23rd elsewhere). \
          Oracle: the API call issuing operation k returns Err (no Ok, no panic, no hang); the instance is dropped; a fault-free reopen \
          succeeds and shows the model before or after that call with all earlier calls intact; the usability suffix passes. \
+         The creating build() is treated the same way (each of its operations fails without effect, or - a write - after a byte prefix \
+         reached the store; building again with the same key pair must give an empty usable core). \
          Two further stages: (faults-after-crash) the history is cut short at a generated journal prefix (optionally with the next \
          write torn), and every storage operation of opening that crashed storage and of a few following calls is failed in turn, with the \
          same oracle; (overwrite-under-faults) a core is re-created over the history's storage with overwrite = true, every storage \
@@ -401,6 +469,17 @@ pub fn run(ctx: &Ctx) {
     indexed_stage(ctx, "exhaustive", n, |i| seq_at(8, i).into_iter().map(alphabet_op).collect::<Vec<Op>>(), |ops, local| test_history(ops, local));
     ctx.extra("exhaustive_stage", json!({"alphabet": ALPHABET, "max_len": l, "sequences": n, "exhaustive": true}));
     random_stage(ctx, "random", ctx.tier.pick(3_000, 50_000), || fault_history_strategy(20), |ops: &Vec<Op>, local| test_history(ops, local));
+    // the creating build: (key variant, failing operation, torn prefix) - the journal of a create has a handful of operations
+    let mut create_cases: Vec<(bool, u64, u64)> = vec![];
+    for public_only in [false, true] {
+        for k in 0..12u64 {
+            for cut in [0u64, 1, 2, 3, 4, 7, 8, 9, 12, 31, 32, 33, 40, 64, 65, 71, 72, 73, 96, 100, 104, 128, 136, 137, 150, 168, 169, 170, 200, 256, 300, 511, 512, 1000, 2048, 4000, 4095] {
+                create_cases.push((public_only, k, cut));
+            }
+        }
+    }
+    let ncc = create_cases.len() as u64;
+    indexed_stage(ctx, "faults-in-creating-build", ncc, |i| create_cases[i as usize], |c: &(bool, u64, u64), local: &mut Local| test_create_fault(c, local));
     random_stage(ctx, "over-budget-batches", ctx.tier.pick(48, 1_500), over_budget_history_strategy, |ops: &Vec<Op>, local| {
         local.class("histories_with_a_batch_over_the_oplog_budget");
         test_history(ops, local)
